@@ -22,6 +22,10 @@ pub fn st_code(s: Status) -> u8 {
         Status::Filled => 2,
         Status::Cancelled => 3,
         Status::Rejected => 4,
+        // (a status this harness does not know: the library grew a variant; it is judged by
+        // value - no order may ever show it - instead of failing the build)
+        #[allow(unreachable_patterns)]
+        _ => 5,
     }
 }
 pub const NEW: u8 = 0;
@@ -31,7 +35,7 @@ pub const CANCELLED: u8 = 3;
 pub const REJECTED: u8 = 4;
 
 pub fn st_name(c: u8) -> &'static str {
-    ["New", "Active", "Filled", "Cancelled", "Rejected"][c as usize]
+    ["New", "Active", "Filled", "Cancelled", "Rejected", "(unknown status)"][(c as usize).min(5)]
 }
 
 #[derive(Clone, PartialEq, Eq, Debug, Hash)]
